@@ -75,52 +75,44 @@ fn opt_s(d: &Option<ustr::Ustr>) -> String {
     }
 }
 
-/// Item string of a real automaton symbol (see refsem.rs for the vocabulary).
-pub fn item_of(dfa: &DFA, inp: &Inp, depth: usize, strip: bool) -> String {
-    if strip {
-        // the reading of an item for *matching*: literal text / command text / any word /
-        // within-word language over readings
-        return match inp {
-            Inp::Literal { literal, .. } => format!("L:{}", literal.as_str()),
-            Inp::Command { cmd, .. } => format!("C:{}|0", cmd.as_str()),
-            Inp::Compadd { cmd, .. } => format!("C:{}|1", cmd.as_str()),
-            Inp::Star => "S".to_string(),
-            Inp::Subword { subdfa, .. } => {
-                let sub = dh::subdfa_of(dfa, *subdfa);
-                let canon = if depth > 3 {
-                    "<nested too deep>".to_string()
-                } else {
-                    match determinize(&nfa_of(sub, dfa, depth + 1, true)) {
-                        Some(d) => d.canonical().serialize(),
-                        None => "<too big>".to_string(),
-                    }
-                };
-                format!("W:{canon}")
-            }
-        };
-    }
-    match inp {
-        Inp::Literal { literal, description, fallback_level } => format!("L:{}|{}|{}", literal.as_str(), opt_s(description), fallback_level),
-        Inp::Command { cmd, fallback_level } => format!("C:{}|{}|0", cmd.as_str(), fallback_level),
-        Inp::Compadd { cmd, fallback_level } => format!("C:{}|{}|1", cmd.as_str(), fallback_level),
-        Inp::Star => "S".to_string(),
-        Inp::Subword { subdfa, fallback_level } => {
-            let sub = dh::subdfa_of(dfa, *subdfa);
-            let canon = if depth > 3 {
-                "<nested too deep>".to_string()
-            } else {
-                match determinize(&nfa_of(sub, dfa, depth + 1, false)) {
-                    Some(d) => d.canonical().serialize(),
-                    None => "<too big>".to_string(),
-                }
-            };
-            format!("W:{fallback_level}|{canon}")
+#[derive(Clone, Copy, PartialEq, Eq)]
+pub enum Labels {
+    /// text, description, `||` level (the vocabulary of refsem.rs)
+    Full,
+    /// text and description, no levels
+    NoLevels,
+    /// how the item is read when matching: literal text / command / any word / word language
+    Reading,
+}
+
+pub fn item_with(owner: &DFA, inp: &Inp, depth: usize, mode: Labels) -> String {
+    let sub_canon = |subdfa: &complgen::dfa::DFAId| -> String {
+        let sub = dh::subdfa_of(owner, *subdfa);
+        if depth > 3 {
+            return "<nested too deep>".to_string();
         }
+        match determinize(&nfa_with(sub, owner, depth + 1, mode)) {
+            Some(d) => d.canonical().serialize(),
+            None => "<too big>".to_string(),
+        }
+    };
+    match (mode, inp) {
+        (Labels::Full, Inp::Literal { literal, description, fallback_level }) => format!("L:{}|{}|{}", literal.as_str(), opt_s(description), fallback_level),
+        (Labels::Full, Inp::Command { cmd, fallback_level }) => format!("C:{}|{}|0", cmd.as_str(), fallback_level),
+        (Labels::Full, Inp::Compadd { cmd, fallback_level }) => format!("C:{}|{}|1", cmd.as_str(), fallback_level),
+        (Labels::Full, Inp::Subword { subdfa, fallback_level }) => format!("W:{fallback_level}|{}", sub_canon(subdfa)),
+        (Labels::NoLevels, Inp::Literal { literal, description, .. }) => format!("L:{}|{}", literal.as_str(), opt_s(description)),
+        (Labels::Reading, Inp::Literal { literal, .. }) => format!("L:{}", literal.as_str()),
+        (_, Inp::Command { cmd, .. }) => format!("C:{}|0", cmd.as_str()),
+        (_, Inp::Compadd { cmd, .. }) => format!("C:{}|1", cmd.as_str()),
+        (_, Inp::Subword { subdfa, .. }) => format!("W:{}", sub_canon(subdfa)),
+        (_, Inp::Star) => "S".to_string(),
     }
 }
 
 /// NFA view of a real automaton over item strings. `owner` holds the sub-automata pool.
-pub fn nfa_of(dfa: &DFA, owner: &DFA, depth: usize, strip: bool) -> Nfa {
+/// State numbering and edge order depend only on the automaton, not on `mode`.
+pub fn nfa_with(dfa: &DFA, owner: &DFA, depth: usize, mode: Labels) -> Nfa {
     let mut ids: BTreeMap<u32, usize> = BTreeMap::new();
     let mut states: Vec<u32> = vec![];
     let mut get = |s: u32, states: &mut Vec<u32>| -> usize {
@@ -137,7 +129,7 @@ pub fn nfa_of(dfa: &DFA, owner: &DFA, depth: usize, strip: bool) -> Nfa {
         for (inp_id, to) in tos {
             let t = get(*to, &mut states);
             let raw = dh::inp_id_raw(*inp_id);
-            let item = item_cache.entry(raw).or_insert_with(|| item_of(owner, dh::inp_of(dfa, *inp_id), depth, strip)).clone();
+            let item = item_cache.entry(raw).or_insert_with(|| item_with(owner, dh::inp_of(dfa, *inp_id), depth, mode)).clone();
             edges.push((f, item, t));
         }
     }
@@ -152,6 +144,14 @@ pub fn nfa_of(dfa: &DFA, owner: &DFA, depth: usize, strip: bool) -> Nfa {
         nfa.trans[f].push((a, t));
     }
     nfa
+}
+
+pub fn nfa_of(dfa: &DFA, owner: &DFA, depth: usize, strip: bool) -> Nfa {
+    nfa_with(dfa, owner, depth, if strip { Labels::Reading } else { Labels::Full })
+}
+
+pub fn nfa_nolevels(dfa: &DFA) -> Nfa {
+    nfa_with(dfa, dfa, 0, Labels::NoLevels)
 }
 
 /// Deterministic view over raw symbol ids (for C03: minimality w.r.t. the automaton's own alphabet).
